@@ -77,9 +77,10 @@ def definitions_stage(c, cfg):
     else:
       if 'err' not in m or not sl.err_matches(real[1], m['err']):
         c.tie_break('builders/factory: accept/reject + error class', case, real[1], m)
-      if fault is None:
-        # a definition the generator believes valid was refused: the model must agree, else the tie reports it
-        pass
+      if fault is None and 'ok' in m:
+        # a definition that is valid by construction AND by the specification's verdict was refused by the builders
+        c.prop_fail('valid-definition-refused:' + str(real[1]),
+                    'a valid definition was refused by the builders (%s)' % (real[1],), case)
   # property: accepted definitions are normalised (judged by the Lean predicate on the real dump)
   for (case, dumped), r in zip(norm_cases, c.lean('C16', norm_reqs)):
     if 'error' in r:
